@@ -1388,6 +1388,12 @@ def rat_binop(op, a, b):
 
 
 def rat_compare(op, a, b):
+    # an infinite float against a (finite) symbolic value: decided by the sign of the infinity
+    for x, y, flip in ((a, b, False), (b, a, True)):
+        if isinstance(y, float) and math.isinf(y) and not (isinstance(x, float) and math.isinf(x)):
+            pos = y > 0
+            o = _SWAP[op] if flip else op  # compare x (finite) o' inf
+            return {"eq": False, "ne": True, "lt": pos, "le": pos, "gt": not pos, "ge": not pos}[o]
     d = Rat.lift(a) - Rat.lift(b)
     if d.is_const():
         c = d.const_value()
